@@ -105,12 +105,12 @@ fn main() {
              text over EVERY built-in font of the working tree x {text, background, underline, strikethrough} x 4 baselines x 3 alignments x line heights x multi-line strings (sampled per font), plus custom fonts. \
              Non-trivial = at least one pixel drawn; distinct = distinct (drawable description, colour type).",
         );
-        let n_small = run.tier(150_000u64, 3_000_000u64);
+        let n_small = run.tier(150_000u64, 10_000_000u64);
         run.generate("random-styled-small", n_small, false, 0.15, |ctx, _idx, rng| {
             let d = zoo::gen_styled(rng, &GenCfg::SMALL, None);
             visit_as::<Rgb565>(ctx, &d);
         });
-        let n_thick = run.tier(150_000u64, 4_000_000u64);
+        let n_thick = run.tier(150_000u64, 20_000_000u64);
         run.generate("thick-joins", n_thick, false, 0.25, |ctx, idx, rng| {
             let v = |rng: &mut egmon::Rng| (rng.i32r(-64, 64), rng.i32r(-64, 64));
             let p = match idx % 3 {
